@@ -902,6 +902,14 @@ func pathPoolFor(rng *rand.Rand) []*variant {
 }
 
 func modeFor(i int, dir string) dbMode {
+	switch os.Getenv("STORE_DEV_MODE") { // developer timing aid, never set by the driver
+	case "memory":
+		return dbMode{}
+	case "file":
+		return dbMode{file: true, dir: dir}
+	case "reader":
+		return dbMode{file: true, reader: true, dir: dir}
+	}
 	switch i % 4 {
 	case 0:
 		return dbMode{file: true, reader: true, dir: dir}
@@ -928,10 +936,13 @@ func onePathHistory(r *mon.Run, i int, dir string) {
 		return
 	}
 	quiet := dbMode{file: mode.file, dir: mode.dir}
-	small := shrink(ops, f.At, f.Key, func(c []pathOp) *failure {
-		ff, _ := runPathHistory(r, pool, c, quiet, false)
-		return ff
-	})
+	small := ops[:f.At+1]
+	if wantShrink(f.Key) {
+		small = shrink(ops, f.At, f.Key, func(c []pathOp) *failure {
+			ff, _ := runPathHistory(r, pool, c, quiet, false)
+			return ff
+		})
+	}
 	var idx []int
 	for _, op := range small {
 		if op.Kind == "insert" || op.Kind == "insert-hp" {
@@ -1557,10 +1568,13 @@ func oneBeaconHistory(r *mon.Run, i int, dir string) {
 		return
 	}
 	quiet := dbMode{file: mode.file, dir: mode.dir}
-	small := shrink(ops, f.At, f.Key, func(c []beaconOp) *failure {
-		ff, _ := runBeaconHistory(r, pool, c, quiet, false)
-		return ff
-	})
+	small := ops[:f.At+1]
+	if wantShrink(f.Key) {
+		small = shrink(ops, f.At, f.Key, func(c []beaconOp) *failure {
+			ff, _ := runBeaconHistory(r, pool, c, quiet, false)
+			return ff
+		})
+	}
 	var idx []int
 	for _, op := range small {
 		if op.Kind == "insert" {
@@ -1668,6 +1682,25 @@ func parallel(n, workers int, f func(i int)) {
 	wg.Wait()
 }
 
+// devLimit lets a developer time a small run (STORE_DEV_LIMIT=n); the driver
+// never sets it.
+func devLimit(n int) int {
+	var v int
+	if _, err := fmt.Sscan(os.Getenv("STORE_DEV_LIMIT"), &v); err == nil && v > 0 {
+		return min(n, v)
+	}
+	return n
+}
+
+var shrinkBudget sync.Map // key -> *atomic.Int64
+
+// wantShrink: only the first few violations per key are shrunk (mon prints
+// three per key anyway).
+func wantShrink(key string) bool {
+	c, _ := shrinkBudget.LoadOrStore(key, new(atomic.Int64))
+	return c.(*atomic.Int64).Add(1) <= 3
+}
+
 func workers() int { return max(2, min(16, runtime.NumCPU())) }
 
 func checkC27(r *mon.Run) {
@@ -1712,9 +1745,10 @@ func checkC27(r *mon.Run) {
 		return
 	}
 
+	defer devProfile()()
 	directedFullIDCollision(r)
-	nPath := r.Pick(1200, 30000)
-	nBeacon := r.Pick(1000, 25000)
+	nPath := devLimit(r.Pick(1200, 30000))
+	nBeacon := devLimit(r.Pick(1000, 25000))
 	parallel(nPath, workers(), func(i int) { onePathHistory(r, i, dir) })
 	parallel(nBeacon, workers(), func(i int) { oneBeaconHistory(r, i, dir) })
 
